@@ -520,6 +520,11 @@ func VerifyRangeProof(rootHash common.Hash, firstKey []byte, lastKey []byte, key
 		}
 		return false, nil
 	}
+	// All claimed pairs must lie inside the range covered by the two edge proofs:
+	// pairs outside of it are not checked against the root at all.
+	if bytes.Compare(keys[0], firstKey) < 0 || bytes.Compare(keys[len(keys)-1], lastKey) > 0 {
+		return false, errors.New("key-value pairs outside the proven range")
+	}
 	// Special case, there is only one element and two edge keys are same.
 	// In this case, we can't construct two edge paths. So handle it here.
 	if len(keys) == 1 && bytes.Equal(firstKey, lastKey) {
